@@ -14,6 +14,7 @@ import (
 	"net/url"
 	"reflect"
 	"regexp"
+	"sort"
 	"strconv"
 	"strings"
 
@@ -511,6 +512,7 @@ func cutPrefix(raw, prefix string) (string, error) {
 // urlValuesDecoder decodes values of query parameters.
 type urlValuesDecoder struct {
 	values url.Values
+	failed map[string]error // form fields that could not be read as their declared type (request bodies)
 }
 
 func (d *urlValuesDecoder) DecodePrimitive(param string, sm *openapi3.SerializationMethod, schema *openapi3.SchemaRef) (any, bool, error) {
@@ -1390,8 +1392,24 @@ func UrlencodedBodyDecoder(body io.Reader, header http.Header, schema *openapi3.
 	if err := decodeSchemaConstructs(dec, []*openapi3.SchemaRef{schema}, obj, encFn); err != nil {
 		return nil, err
 	}
+	// a field that is present but could not be read as any of the types its schemas declare is an error of the
+	// body, not an absent property
+	for _, name := range sortedFailures(dec.failed) {
+		if _, decoded := obj[name]; !decoded {
+			return nil, &ParseError{path: []any{name}, Cause: dec.failed[name]}
+		}
+	}
 
 	return obj, nil
+}
+
+func sortedFailures(m map[string]error) []string {
+	names := make([]string, 0, len(m))
+	for name := range m {
+		names = append(names, name)
+	}
+	sort.Strings(names)
+	return names
 }
 
 // decodeSchemaConstructs tries to decode properties based on provided schemas.
@@ -1413,6 +1431,10 @@ func decodeSchemaConstructs(dec *urlValuesDecoder, schemas []*openapi3.SchemaRef
 		for name, prop := range schemaRef.Value.Properties {
 			value, _, err := decodeProperty(dec, name, prop, encFn)
 			if err != nil {
+				if dec.failed == nil {
+					dec.failed = make(map[string]error)
+				}
+				dec.failed[name] = err // unless another schema of a composition reads it (checked by the caller)
 				continue
 			}
 			if value == nil {
